@@ -25,6 +25,11 @@ def run(rep):
              'every reachable state: every site that installs a specification '
              'records the reference, nothing clears it, and the fallback is '
              'chosen by identity (is None), not truthiness', floor=4)
+    rep.rule('R13.4', 'the live object stays what its pickle names: a pickle carries only '
+             'references, so the unpickled object is recomputed from the current '
+             'declarations - the live one agrees only if every override of changed() in '
+             'the declaration classes still runs the inherited recomputation on every '
+             'path (C02 R02.4)', floor=2)
     rep.decline('equality of the provided sets after a real round trip for '
                 'every declaration shape and pickle protocol (round-trip over '
                 'runtime values)')
@@ -33,3 +38,5 @@ def run(rep):
     picklesem.reduce_forms(rep, imod, dmod, 'R13.1')
     picklesem.ctor_capture(rep, dmod, 'R13.2')
     picklesem.reduce_reference(rep, dmod, 'R13.3')
+    from .C02 import r02_4
+    r02_4(rep, repo, rule='R13.4')
